@@ -547,6 +547,10 @@ KNOWN_ESCAPES = [
      'known:invalid-namespace-status-from-repository-without-connection-AttributeError', 'hint:repo'),
     ('CIMError', r'p_mp_setQualifier$', r'scripted rejection of (SetQualifier|DeleteQualifier)',
      'known:setqualifier-retry-or-deletequalifier-CIMError-not-translated', 'hint:repo'),
+    # the same defect with the DeleteQualifier of MOFWBEMConnection (not implemented) and of the mock server (called
+    # without namespace= it looks into the default namespace) after a scripted SetQualifier rejection
+    ('CIMError', r'p_mp_setQualifier$', r"This should not happen!|QualifierDeclaration '.*' not found in namespace",
+     'known:setqualifier-retry-or-deletequalifier-CIMError-not-translated', 'hint:reject'),
     ('AttributeError', r'p_mp_createClass$', r"^'NoneType' object has no attribute 'lower'",
      'known:invalid-superclass-status-for-class-without-superclass-AttributeError', 'hint:repo'),
     ('ValueError', r'p_mp_createInstance$', r'^cannot switch from manual field specification to automatic',
@@ -2087,7 +2091,7 @@ class RetryBench:
         self.env = Env(kind, search_paths=[self.root])
         self.clean = None
         self.n = 0
-        self.fresh_every = 24 if QUICK else 4
+        self.fresh_every = 24 if QUICK else 1000000
         self.stats = {}
 
     def reference_env(self, fresh):
@@ -2114,6 +2118,8 @@ def rx_hints(env, sc):
     hints = {'file', 'embedded'}
     if env.kind == 'script' or sc['arm']:
         hints.add('repo')
+    if sc['arm']:
+        hints.add('reject')
     if env.kind.startswith('faked'):
         hints.add('mock')
     return hints
@@ -2369,7 +2375,9 @@ def f_retry():
     else:
         rejects = rx_reject_scenarios(RX_REJECT_OPS + RX_REJECT_MORE, (1, 2, 3), RX_REJECT_CODES)
     n = 0
+    import time
     for ki, kindname in enumerate(kinds):
+        t0 = time.time()
         bench = RetryBench(kindname)
         for si, sc in enumerate(RX_SCENARIOS):
             modes = sc['modes'] or ALLMODES
@@ -2391,6 +2399,7 @@ def f_retry():
                             others = [n, n + 3, n + 6]
                         for o in others:
                             rx_scenario(bench, sc, fi, mode, variant, other=o)
+        dbg('retry', kindname, bench.n, 'scenarios', '%.1fs' % (time.time() - t0))
         for ri, sc in enumerate(rejects):
             for mi, mode in enumerate(('string', 'inc1', 'dep1')):
                 for vi, variant in enumerate(('retry', 'other', 'two')):
@@ -2400,6 +2409,7 @@ def f_retry():
                     if not QUICK and mode != 'string' and (ri + mi + vi) % 2:
                         continue
                     rx_scenario(bench, sc, 0, mode, variant, other=n if variant == 'two' else None)
+        dbg('retry', kindname, bench.n, 'scenarios', '%.1fs' % (time.time() - t0))
         simple = [s for s in RX_SCENARIOS if not s['ns2']]
         for ai, sa in enumerate(simple):
             for bi, sb in enumerate(simple):
@@ -2407,7 +2417,7 @@ def f_retry():
                     continue
                 n += 1
                 rx_pair(bench, sa, sb, fresh=(n % (24 if QUICK else 4) == 0))
-        dbg('retry', kindname, bench.n, 'scenarios', sorted(bench.stats.items()))
+        dbg('retry', kindname, bench.n, 'scenarios', '%.1fs' % (time.time() - t0), sorted(bench.stats.items()))
         # ns=None: the default namespace of the repository (one more reused compiler, a fresh reference each time)
         bench = RetryBench(kindname)
         for si, sc in enumerate(RX_SCENARIOS + rejects[:6]):
